@@ -1109,7 +1109,7 @@ static int do_wait(struct waitreq *rq, int ms_granular)
 	}
 
 	w.v_enter = V;
-	dl = rq->timeout_ns < 0 ? VT_INF : V + rq->timeout_ns;
+	dl = rq->timeout_ns < 0 ? VT_INF : (rq->timeout_ns > VT_INF - V - 1 ? VT_INF - 1 : V + rq->timeout_ns);
 	w.deadline = dl;
 	if (fd >= 0 && vtfd[fd].used && vtfd[fd].armed && vtfd[fd].expiry < w.deadline)
 		w.deadline = vtfd[fd].expiry;
@@ -1212,6 +1212,8 @@ static int64_t ts_to_ns(const struct timespec *ts)
 {
 	if (ts == NULL)
 		return -1;
+	if (ts->tv_sec >= 9000000000LL)		/* more than 285 years: beyond what 64-bit nanoseconds hold */
+		return 9000000000LL * VT_NS;
 	return (int64_t)ts->tv_sec * VT_NS + ts->tv_nsec;
 }
 
